@@ -68,3 +68,23 @@ Theorem C03_einsum_exact_reals :
     in_range (out_dims I J dimsA dimsB) o ->
     einsum_general (S:=RS) I J dimsA dimsB A B (flat (out_dims I J dimsA dimsB) o) = einsum_spec (S:=RS) I J dimsA dimsB A B o.
 Proof. intros. apply (einsum_general_exact RS RS_laws); assumption. Qed.
+
+(** * Tie to the source (translator): is_vectorisable / is_reducibly_vectorisable of meta/einsum_meta.h, which choose
+    the vector type and the stride of the contraction loop nest on its fastest-changing index, as translated on
+    every run.  For all extents and index lists: the stride equals the lane count of the chosen vector type, is 1 or
+    the sse or the avx lane count, divides the last extent F of the second tensor (the strided loop stays on that
+    axis), and the scalar route is taken when the last index of the second tensor is contracted; the float and
+    double specialisations agree with the generic definition at their lane counts. *)
+From FastorV Require Import Gen.Generated Proofs.GenEinsumEq.
+Theorem C03_source_vectorisation_choice :
+  forall (F nu n0 n1 : Z) (lc : bool) (ws wa : Z),
+    (stride_ok F ws wa (gen_is_vectorisable F nu n0 n1 lc ws wa) /\
+     (lc = true -> gen_is_vectorisable F nu n0 n1 lc ws wa = (false, 1, 1)%Z)) /\
+    stride_ok F ws wa (gen_is_reducibly_vectorisable F nu n0 n1 lc ws wa) /\
+    gen_is_vectorisable_float F nu n0 n1 lc 4 8 = gen_is_vectorisable F nu n0 n1 lc 4 8 /\
+    gen_is_vectorisable_double F nu n0 n1 lc 2 4 = gen_is_vectorisable F nu n0 n1 lc 2 4.
+Proof.
+  intros. exact (conj (gen_is_vectorisable_ok F nu n0 n1 lc ws wa) (conj (gen_is_reducibly_vectorisable_ok F nu n0 n1 lc ws wa)
+                (conj (gen_is_vectorisable_float_eq F nu n0 n1 lc) (gen_is_vectorisable_double_eq F nu n0 n1 lc)))).
+Qed.
+Print Assumptions C03_source_vectorisation_choice.
